@@ -137,7 +137,7 @@ def rule_r2(ctx: Ctx) -> None:
             ok: Optional[bool]
             why = ""
             yidx = next(i for i, b in enumerate(t.body) if any(isinstance(y, (ast.Yield, ast.YieldFrom)) for y in ast.walk(b)))
-            after = [x for b in t.body[yidx + 1:] for x in ast.walk(b)]
+            after = [x for b in list(t.body[yidx + 1:]) + list(t.orelse) for x in ast.walk(b)]     # what runs only after a successful yield
             if isinstance(loop, ast.While):
                 test_names = {x.id for x in ast.walk(loop.test) if isinstance(x, ast.Name)}
                 counted = any(isinstance(x, ast.AugAssign) and isinstance(x.target, ast.Name) and x.target.id in test_names for x in after)
